@@ -576,11 +576,18 @@ func Minimise(env *Env, p Property, c *Case, f Finding) (*Case, error) {
 // WriteReplay stores the minimised case under /verif/replays.
 func WriteReplay(verifDir string, c *Case) (string, error) {
 	dir := filepath.Join(verifDir, "replays")
+	name := ""
+	h := sha256.Sum256([]byte(c.Verdict.Signature))
+	if filepath.Base(verifDir) == "known_replays" {
+		// one stable file per listed finding
+		dir = verifDir
+		name = fmt.Sprintf("%s-%s.json", c.Property, hex.EncodeToString(h[:4]))
+	} else {
+		name = fmt.Sprintf("%s-%d-%d-%s.json", c.Property, c.Seed, c.Run, hex.EncodeToString(h[:4]))
+	}
 	if err := os.MkdirAll(dir, 0o755); err != nil {
 		return "", err
 	}
-	h := sha256.Sum256([]byte(c.Verdict.Signature))
-	name := fmt.Sprintf("%s-%d-%d-%s.json", c.Property, c.Seed, c.Run, hex.EncodeToString(h[:4]))
 	p := filepath.Join(dir, name)
 	b, err := json.MarshalIndent(c, "", " ")
 	if err != nil {
